@@ -123,6 +123,17 @@ pub trait Prop: Sync + Send + 'static {
     fn mix(&self, _prev: &Self::Case, _cur: &Self::Case) -> Vec<Self::Case> {
         Vec::new()
     }
+    /// How often a single case is re-evaluated (in the generation phase and in replay mode)
+    /// before a failure that was observed once is given up as not reproducible. Properties whose
+    /// check contains a phase scheduled by the operating system (C19) return a larger number;
+    /// for them an observed failure that never shows again is still reported (the oracle does
+    /// not depend on the interleaving), with the case and the failure text as they were observed.
+    fn replay_repeats(&self) -> u32 {
+        1
+    }
+    fn max_shrink_iters(&self) -> u32 {
+        8192
+    }
     /// Repeat a share of the run in a fresh process in which the harness never calls
     /// `RoundingMode::set_default` (see `pristine()`).
     fn pristine_run(&self) -> bool {
@@ -611,11 +622,24 @@ pub fn run_prop<P: Prop>(prop: P, opts: &Opts) -> ! {
             PRISTINE.store(true, Ordering::Relaxed);
             println!("(replayed in a process that never calls RoundingMode::set_default)");
         }
+        let reps = prop.replay_repeats().max(1);
         let mut ctx = Ctx { trace: Some(Vec::new()), ..Ctx::default() };
-        let r = catch(|| prop.check(&rf.case, &mut ctx));
-        if let Err(m) = r {
-            println!("INCONCLUSIVE: harness panicked during replay: {m}");
-            std::process::exit(2);
+        for attempt in 1..=reps {
+            ctx = Ctx { trace: Some(Vec::new()), ..Ctx::default() };
+            let r = catch(|| prop.check(&rf.case, &mut ctx));
+            if let Err(m) = r {
+                println!("INCONCLUSIVE: harness panicked during replay: {m}");
+                std::process::exit(2);
+            }
+            if !ctx.failures.is_empty() {
+                if reps > 1 {
+                    println!("(failed in attempt {attempt} of at most {reps}: the check contains an operating-system scheduled phase)");
+                }
+                break;
+            }
+        }
+        if reps > 1 && ctx.failures.is_empty() {
+            println!("(no failure in {reps} attempts)");
         }
         println!("replay {} property={id}", path.display());
         println!("case: {}", serde_json::to_string(&rf.case).unwrap());
@@ -779,11 +803,12 @@ pub fn run_prop<P: Prop>(prop: P, opts: &Opts) -> ! {
             let prev_case: RefCell<Option<P::Case>> = RefCell::new(None);
             let mixed_fail: RefCell<Option<(P::Case, Vec<Failure>)>> = RefCell::new(None);
             let mixed_count = std::cell::Cell::new(0u64);
+            let first_fail: RefCell<Option<(P::Case, Vec<Failure>)>> = RefCell::new(None);
             let cfg = Config {
                 cases: per as u32,
                 rng_seed: RngSeed::Fixed(seed),
                 failure_persistence: None,
-                max_shrink_iters: 8192,
+                max_shrink_iters: prop.max_shrink_iters(),
                 max_global_rejects: 65536,
                 verbose: 0,
                 ..Config::default()
@@ -866,6 +891,7 @@ pub fn run_prop<P: Prop>(prop: P, opts: &Opts) -> ! {
                 } else {
                     if !failed.get() {
                         *first_history.borrow_mut() = window.borrow().iter().cloned().collect();
+                        *first_fail.borrow_mut() = Some((case.clone(), real.clone()));
                     }
                     failed.set(true);
                     Err(TestCaseError::fail(real[0].sig.clone()))
@@ -914,6 +940,35 @@ pub fn run_prop<P: Prop>(prop: P, opts: &Opts) -> ! {
                         }
                     }
                     if hist.is_empty() {
+                        let (mut min_case, mut real) = (min_case, real);
+                        let reps = prop.replay_repeats();
+                        if real.is_empty() && reps > 1 {
+                            // timing-dependent: try the shrunk case, then the case as first observed, repeatedly
+                            let first = first_fail.borrow_mut().take();
+                            let mut cands: Vec<P::Case> = vec![min_case.clone()];
+                            if let Some((c, _)) = &first {
+                                cands.push(c.clone());
+                            }
+                            'outer: for c in cands {
+                                for _ in 0..reps {
+                                    let r = eval_case(&*prop, &known, &c, None);
+                                    if !r.is_empty() {
+                                        min_case = c;
+                                        real = r;
+                                        break 'outer;
+                                    }
+                                }
+                            }
+                            if real.is_empty() {
+                                if let Some((c, r)) = first {
+                                    // observed once, never again: still a violation of a property that
+                                    // quantifies over all interleavings; report it as observed
+                                    println!("note: a failure observed in an operating-system scheduled phase did not show again in {reps} re-evaluations; it is reported as it was observed");
+                                    min_case = c;
+                                    real = r;
+                                }
+                            }
+                        }
                         found.lock().unwrap().push((min_case, real, format!("generated seed={seed} worker={w}")));
                     }
                 }
